@@ -16,6 +16,7 @@ import (
 //	e <op> <lit> <s> <field>...      parse `f <op> lit`, EvalBool with f := each field -> bits
 //	b <op> <lit> <s> <value>... [E]  the same through Store.QueryIds of a bolt store (c11_bolt.go)
 //	d <form> <lit> <s> <lit2> <s2> <field>...   two literals in one filter (or / in / and-ne)
+//	m <s> <filter in prefix form> . <field>...  a whole filter with repeated literals under mixed operators (c11_mixed.go)
 //
 // <lit> is the quoted literal, built by the *generator* from s with a random choice, per
 // control character occurrence, of escaped or raw form (raw control characters are not
@@ -150,6 +151,10 @@ func c11Emit(out *bufio.Writer, s string, r *rng) {
 		}
 		out.WriteByte('\n')
 	}
+	// a whole filter with several comparisons whose literals repeat (c11_mixed.go)
+	if r.chance(1, 2) {
+		c11EmitMixed(out, s, r)
+	}
 	// the same through a bolt-backed store (ids and a string field), for one string in eight and
 	// always for short ones: values must be usable bbolt keys (non-empty) and distinct
 	if len(s) <= 2 || r.chance(1, 8) {
@@ -274,6 +279,8 @@ func c11Exec(line string) string {
 		return b.String()
 	case "b", "c":
 		return c11ExecBolt(f)
+	case "m":
+		return c11ExecMixed(f)
 	case "d":
 		l1, l2 := fromWire(f[2]), fromWire(f[4])
 		var q string
